@@ -272,8 +272,12 @@ fn c09_e2e(ctx: &mut Ctx) {
 }
 
 pub fn c09(ctx: &mut Ctx) {
-    helper_pieces(ctx);
     c09_e2e(ctx);
+    c09_direct(ctx);
+}
+
+pub fn c09_direct(ctx: &mut Ctx) {
+    helper_pieces(ctx);
     let mut tris = Vec::new();
     // (a) exhaustive: every byte literal (ASCII as is; high bytes inside a valid 2-byte sequence),
     // every %hh and %HH.
@@ -516,6 +520,10 @@ fn c10_e2e(ctx: &mut Ctx) {
 
 pub fn c10(ctx: &mut Ctx) {
     c10_e2e(ctx);
+    c10_direct(ctx);
+}
+
+pub fn c10_direct(ctx: &mut Ctx) {
     let mut tris = Vec::new();
     // (a) every sequence of up to k atoms (quick 3, thorough 4) — covers every permutation of them
     let k = ctx.n(3, 4);
@@ -878,7 +886,7 @@ pub fn c16(ctx: &mut Ctx) {
     // (f') every rendering style through the whole entry point, on either carrier: a correctly signed
     // request whose timestamp is written in any accepted form must be accepted (inside the window), and
     // the scope date demanded must be the UTC date of the instant
-    {
+    if !ctx.rep.dep_mode {
         use crate::gen::*;
         use crate::props_validate::{job, run_jobs, simple_logical, Expect};
         let mut jobs = Vec::new();
@@ -931,7 +939,7 @@ pub fn c16(ctx: &mut Ctx) {
     }
     // (i) extra bytes around a well-formed timestamp in a date header: only the surrounding spaces of a header
     // value are forgiven; any other byte a header value may carry (tab, 0x85, 0xA0, ...) is the format error
-    {
+    if !ctx.rep.dep_mode {
         use crate::gen::*;
         use crate::props_validate::{job, run_jobs, simple_logical, Expect};
         let mut jobs = Vec::new();
